@@ -254,6 +254,8 @@ enum Op {
     FsRm { file: FileRef },
     FsWrite { file: FileRef, bytes: Vec<u8> },
     FsAppend { file: FileRef, bytes: Vec<u8> },
+    FsPatch { file: FileRef, from_end: u64, bytes: Vec<u8> },
+    FsCut { file: FileRef, n: u64 },
     FsAsset { dir: String, stem: String },
     Dump,
 }
@@ -437,6 +439,15 @@ fn parse_op_line(line: &str) -> Option<Line> {
         },
         ["fs_append", f, bytes] => Op::FsAppend {
             file: parse_file_ref(f)?,
+            bytes: parse_hex(bytes)?,
+        },
+        ["fs_cut", f, n] => Op::FsCut {
+            file: parse_file_ref(f)?,
+            n: parse_num(n)?,
+        },
+        ["fs_patch", f, from_end, bytes] => Op::FsPatch {
+            file: parse_file_ref(f)?,
+            from_end: parse_num(from_end)?,
             bytes: parse_hex(bytes)?,
         },
         ["fs_asset", dir, stem] => Op::FsAsset {
@@ -1013,6 +1024,31 @@ impl State {
                     .append(true)
                     .open(path)?
                     .write_all(bytes)
+            }),
+            Op::FsCut { file, n } => self.fs_op(file, |path| {
+                // remove the last n bytes of the file (all of them when it is shorter)
+                let f = fs::OpenOptions::new().write(true).open(path)?;
+                let len = f.metadata()?.len();
+                f.set_len(len.saturating_sub(*n))
+            }),
+            Op::FsPatch {
+                file,
+                from_end,
+                bytes,
+            } => self.fs_op(file, |path| {
+                // overwrite bytes starting `from_end` bytes before the end of the
+                // file; the part of the patch that would extend the file is dropped
+                let mut content = fs::read(path)?;
+                let len = content.len() as u64;
+                if *from_end <= len {
+                    let start = (len - *from_end) as usize;
+                    for (i, b) in bytes.iter().enumerate() {
+                        if start + i < content.len() {
+                            content[start + i] = *b;
+                        }
+                    }
+                }
+                fs::write(path, content)
             }),
             Op::FsAsset { dir, stem } => {
                 let result = self.op_fs_asset(dir, stem);
